@@ -32,7 +32,7 @@ EXPECT_CFG = {'big': (None, 32, 0), 'u8': (1, 32, 0), 'i16': (2, 32, 0), 'u32': 
 CORNER_X = [   # the operations added by the coverage audit
     'n n w0,1 n', 'n n n w2,0 w0,1 n n', 'n n y0,1 d0 d0 n', 'n m0 w0,0 d0', 'n n m0 y0,1 m1 w1,0 n',
     'n d0 v n d0 v c', 'n a0 n v x0 d0 v d0 n', 'n n a0 p0,0 n', 'n a0 n a0 n p1,0 x0 d0 n n', 'n n a0 i0,0 z0 z0 d0 d0 n',
-    'n q0 q0 d0 d0 n', 'e', 'n d0 e n', 'n n d0 d0 e e n', 'n f0', 'n n d0 f0 n', 'n f0 d0 f0 e n', 'n a0 n a0 n a0 j0 n', 'n a0 n a0 d0 j1 k n', 'n a0 n d0 k n', 'k', 'n n a0 a0 x0 d0 k j0 k c', 'n s0 n s1 a0 a0 d0 n', 'n s0 n s1 a0 p0,0 i0,0 d0 n', 'n n n s0 s1 s2 a0 a0 i0,0 x0 a0 a0 d0 d0 n',
+    'n q0 q0 d0 d0 n', 'e', 'n d0 e n', 'n n d0 d0 e e n', 'n f0', 'n n d0 f0 n', 'n f0 d0 f0 e n', 'n a0 n a0 n a0 j0 n', 'n a0 n a0 n a0 g0 n', 'n a0 n a0 n a0 l1 d0 n', 'n a0 n a0 n a0 n a0 g1 l0 j0 c', 'n a0 n a0 d0 j1 k n', 'n a0 n d0 k n', 'k', 'n n a0 a0 x0 d0 k j0 k c', 'n s0 n s1 a0 a0 d0 n', 'n s0 n s1 a0 p0,0 i0,0 d0 n', 'n n n s0 s1 s2 a0 a0 i0,0 x0 a0 a0 d0 d0 n',
     'n n n a0 a0 a0 z0 z1 x0 d2 d0 d0 n',
 ]
 
@@ -47,7 +47,7 @@ def gen_ops(r, n, mode):
             w = ['n', 'd%d' % r.below(3)][j % 2] if x < 85 else 'n'
         elif mode == 3:
             w = ('n' if x < 22 else 'a%d' % r.below(4) if x < 40 else 'i%d,%d' % (r.below(5), r.below(4)) if x < 46 else 'p%d,%d' % (r.below(5), r.below(4)) if x < 54
-                 else 'x%d' % r.below(6) if x < 64 else 'z%d' % r.below(6) if x < 72 else 'r%d' % r.below(6) if x < 77 else 'j%d' % r.below(2) if x < 79 else 'k' if x < 80 else 's%d' % r.below(4) if x < 84
+                 else 'x%d' % r.below(6) if x < 64 else 'z%d' % r.below(6) if x < 72 else 'r%d' % r.below(6) if x < 77 else 'j%d' % r.below(2) if x < 78 else 'g%d' % r.below(2) if x < 79 else 'l%d' % r.below(2) if x < 79 else ('k' if x % 2 else 'l%d' % r.below(2)) if x < 80 else 's%d' % r.below(4) if x < 84
                  else 'd%d' % r.below(4) if x < 95 else 'c')
         elif mode == 4:
             w = 'n' if j < n // 2 else ('d%d' % r.below(16) if x < 90 else 'n')
@@ -389,11 +389,15 @@ def run(ctx):
                'gen_datarowops.json', 'gen_tableswap.json', 'gen_tablecrew.json'])      # T-gen: DataRow::~DataRow / ptGetRaw / ptExtractRaw, DataTable::pvDeallocateFreeRaws / pvAllocateRaw
     ctx.prove()
     flags = ['-pthread']
-    harness = ctx.cxx('harness.cpp', 'harness', flags, sanitize=False)
+    prebuilt = {}
+    if ctx.quick():      # cold-start time: the three quick-tier harness TUs are built in parallel (cxx_many uses the tier's default = no ASan)
+        prebuilt = ctx.cxx_many([('harness.cpp', 'harness', flags), ('harness.cpp', 'harness_tsan', flags + ['-fsanitize=thread']),
+                                 ('harness2.cpp', 'harness2', flags)])
+    harness = prebuilt['harness'] if 'harness' in prebuilt else ctx.cxx('harness.cpp', 'harness', flags, sanitize=False)
     if harness is None:
         ctx.stage('build-harness', False, getattr(ctx, 'last_cxx_error', ''))
         return ctx.finish(rule=RULE)
-    tsan = ctx.cxx('harness.cpp', 'harness_tsan', flags + ['-fsanitize=thread'], sanitize=False)
+    tsan = prebuilt['harness_tsan'] if 'harness_tsan' in prebuilt else ctx.cxx('harness.cpp', 'harness_tsan', flags + ['-fsanitize=thread'], sanitize=False)
     asan = ctx.cxx('harness.cpp', 'harness', flags, sanitize=True) if not ctx.quick() else None
     # the executable machine is extracted even when a PROOF broke (e.g. a regenerated function no longer satisfies its refinement lemma):
     # the hand machine still compiles, so conformance and trace replay keep running and can supply the concrete input
@@ -456,7 +460,7 @@ def run(ctx):
 
     # ---- tie (b2): deterministic multi-thread schedules (barrier harness: the list head type is wrapped with test hooks in
     #      harness2.cpp only) replayed on the EXACT owner machine TreiberExact.stepx
-    harness2 = ctx.cxx('harness2.cpp', 'harness2', flags, sanitize=False)
+    harness2 = prebuilt['harness2'] if 'harness2' in prebuilt else ctx.cxx('harness2.cpp', 'harness2', flags, sanitize=False)
     if harness2 is None:
         ctx.stage('build-harness2', False, getattr(ctx, 'last_cxx_error', ''))
     else:
